@@ -356,9 +356,14 @@ func NewManager(store Store, log *zap.Logger) (*Manager, error) {
 		scopes: &scope{children: make(map[string]*scope), hooks: make(map[int64]bool)},
 	}
 
-	_, err := store.Webhooks()
+	hooks, err := store.Webhooks()
 	if err != nil {
 		return nil, fmt.Errorf("failed to load Webhooks: %w", err)
+	}
+	// rebuild the in-memory table and the scope tree from the stored hooks
+	for _, hook := range hooks {
+		m.hooks[hook.ID] = hook
+		m.addHookScopes(hook.ID, hook.Scopes)
 	}
 	return m, nil
 }
